@@ -3,7 +3,12 @@
 package stringclassifier
 
 import (
+	"encoding/json"
 	"fmt"
+	"go/ast"
+	"go/parser"
+	gotoken "go/token"
+	"os"
 	"sort"
 	"strings"
 	"sync"
@@ -269,4 +274,92 @@ func vfilterExtra(ms Matches) Matches {
 	}
 	sort.Sort(out)
 	return out
+}
+
+// TestVerifDump extracts, from the AST of classifier.go, the order in which the goroutine body of
+// multipleMatch takes the lock and touches the lazily built field `set` (facts only).
+func TestVerifDump(t *testing.T) {
+	fset := gotoken.NewFileSet()
+	f, err := parser.ParseFile(fset, "classifier.go", nil, 0)
+	if err != nil {
+		t.Fatal(err)
+	}
+	var events []string
+	mentionsSet := func(n ast.Node) bool {
+		found := false
+		ast.Inspect(n, func(m ast.Node) bool {
+			if se, ok := m.(*ast.SelectorExpr); ok && se.Sel.Name == "set" {
+				found = true
+			}
+			return true
+		})
+		return found
+	}
+	var walk func(stmts []ast.Stmt)
+	walk = func(stmts []ast.Stmt) {
+		for _, st := range stmts {
+			switch x := st.(type) {
+			case *ast.ExprStmt:
+				if ce, ok := x.X.(*ast.CallExpr); ok {
+					if se, ok := ce.Fun.(*ast.SelectorExpr); ok {
+						switch se.Sel.Name {
+						case "Lock", "RLock":
+							events = append(events, "lock")
+							continue
+						case "Unlock", "RUnlock":
+							events = append(events, "unlock")
+							continue
+						case "findMatches":
+							events = append(events, "use")
+							continue
+						}
+					}
+					if mentionsSet(ce) {
+						events = append(events, "rd")
+					}
+				}
+			case *ast.IfStmt:
+				if mentionsSet(x.Cond) {
+					events = append(events, "rd")
+				}
+				walk(x.Body.List)
+				if eb, ok := x.Else.(*ast.BlockStmt); ok {
+					walk(eb.List)
+				}
+			case *ast.AssignStmt:
+				for _, r := range x.Rhs {
+					if mentionsSet(r) {
+						events = append(events, "rd")
+					}
+				}
+				for _, l := range x.Lhs {
+					if mentionsSet(l) {
+						events = append(events, "wr")
+					}
+				}
+			case *ast.BlockStmt:
+				walk(x.List)
+			}
+		}
+	}
+	ast.Inspect(f, func(n ast.Node) bool {
+		fd, ok := n.(*ast.FuncDecl)
+		if !ok || fd.Name.Name != "multipleMatch" {
+			return true
+		}
+		ast.Inspect(fd, func(m ast.Node) bool {
+			if gs, ok := m.(*ast.GoStmt); ok {
+				if fl, ok := gs.Call.Fun.(*ast.FuncLit); ok {
+					walk(fl.Body.List)
+				}
+				return false
+			}
+			return true
+		})
+		return false
+	})
+	b, _ := json.Marshal(map[string]interface{}{"multipleMatchSkeleton": events})
+	if err := os.WriteFile(os.Getenv("VERIF_OUT")+"/v1protocol.json", b, 0o644); err != nil {
+		t.Fatal(err)
+	}
 }
